@@ -215,6 +215,19 @@ func c10Exec(t c10Task) c10Result {
 			ok, _ := w.drainConverge()
 			w.PanicViolations("C10")
 			if !ok && len(w.viol) == 0 {
+				// The operator's first reaction is a clean stop. A node that one failed storage operation has
+				// wedged so that Stop never returns cannot "recover on restart" without being killed.
+				if !w.runDone {
+					w.StopNode()
+					for i := range w.viol {
+						if w.viol[i].Clause == "stop-terminates" {
+							w.viol[i].Property, w.viol[i].Clause = "C10", "recovers-after-fault"
+							w.viol[i].Class = "node cannot be stopped after the fault (failed " + cls + ")"
+						}
+					}
+				}
+			}
+			if !ok && len(w.viol) == 0 {
 				// restart (unclean: nothing more is written) and try again
 				w.S.KillAll(true)
 				w.P = nil
